@@ -6,7 +6,7 @@ from .front import Front
 from .lib import Registry
 from .contracts import ContractSet, verify_function
 
-CONTRACT_MODULES = ["contracts.samples_models", "contracts.smc_base", "contracts.samples", "contracts.samplers", "contracts.io", "contracts.checkpoint", "contracts.context", "contracts.aspire_api", "contracts.dtypes", "contracts.serialization", "contracts.flows"]
+CONTRACT_MODULES = ["contracts.samples_models", "contracts.smc_base", "contracts.samples", "contracts.samplers", "contracts.io", "contracts.checkpoint", "contracts.context", "contracts.aspire_api", "contracts.dtypes", "contracts.serialization", "contracts.flows", "contracts.transforms"]
 _state = {}
 
 def load():
